@@ -47,10 +47,29 @@ pub struct HeaderWithExtension { pub header: Header, pub extension: Option<u8> }
 impl HeaderWithExtension { fn to_vec(&self) -> MVal { MVal::Header(self.header.raw.number) } }
 
 // structured keys/values
-#[derive(Clone, Copy, PartialEq, Eq, Debug)]
-pub enum MKey { TxHash(u8), Cell(ScriptType, u8, u64, u32, u32), Tx(ScriptType, u8, u64, u32, u32, bool), BlockHash(u8), BlockNumber(u64), None }
-#[derive(Clone, Copy, PartialEq, Eq, Debug)]
-pub enum MVal { Hash(u8), Tx(u64, u32, u8), Header(u64), None }
+// (flat words instead of enums with payloads: equality is three integer comparisons, which keeps the op-list scans cheap for CBMC)
+#[derive(Clone, Copy, PartialEq, Eq, Debug)] pub struct MKey { pub a: u64, pub n: u64, pub c: u64 }
+#[allow(non_snake_case)]
+impl MKey {
+    pub const None: MKey = MKey { a: 0, n: 0, c: 0 };
+    fn st(t: ScriptType) -> u64 { match t { ScriptType::Lock => 0, ScriptType::Type => 1 } }
+    pub fn TxHash(h: u8) -> MKey { MKey { a: 1 | ((h as u64) << 8), n: 0, c: 0 } }
+    pub fn Cell(t: ScriptType, s: u8, n: u64, ti: u32, o: u32) -> MKey { MKey { a: 2 | (Self::st(t) << 4) | ((s as u64) << 8), n, c: ((ti as u64) << 32) | o as u64 } }
+    pub fn Tx(t: ScriptType, s: u8, n: u64, ti: u32, o: u32, out: bool) -> MKey { MKey { a: 3 | (Self::st(t) << 4) | ((out as u64) << 5) | ((s as u64) << 8), n, c: ((ti as u64) << 32) | o as u64 } }
+    pub fn BlockHash(h: u8) -> MKey { MKey { a: 4 | ((h as u64) << 8), n: 0, c: 0 } }
+    pub fn BlockNumber(n: u64) -> MKey { MKey { a: 5, n, c: 0 } }
+    pub fn is_cell(&self) -> bool { self.a & 0xf == 2 }
+    pub fn number(&self) -> u64 { self.n }
+    pub fn tx_index(&self) -> u32 { (self.c >> 32) as u32 }
+}
+#[derive(Clone, Copy, PartialEq, Eq, Debug)] pub struct MVal { pub a: u64, pub b: u64 }
+#[allow(non_snake_case)]
+impl MVal {
+    pub const None: MVal = MVal { a: 0, b: 0 };
+    pub fn Hash(h: u8) -> MVal { MVal { a: 1 | ((h as u64) << 8), b: 0 } }
+    pub fn Tx(n: u64, t: u32, h: u8) -> MVal { MVal { a: 2 | ((h as u64) << 8) | ((t as u64) << 16), b: n } }
+    pub fn Header(n: u64) -> MVal { MVal { a: 3, b: n } }
+}
 pub enum Key<'a> { TxHash(&'a Byte32), CellLockScript(&'a Script, BlockNumber, TxIndex, OutputIndex), CellTypeScript(&'a Script, BlockNumber, TxIndex, OutputIndex), TxLockScript(&'a Script, BlockNumber, TxIndex, CellIndex, CellType), TxTypeScript(&'a Script, BlockNumber, TxIndex, CellIndex, CellType), BlockHash(&'a Byte32), BlockNumber(BlockNumber) }
 impl<'a> Key<'a> { pub fn into_vec(self) -> MKey { match self {
     Key::TxHash(h) => MKey::TxHash(h.0),
@@ -108,7 +127,7 @@ mod harness {
     }
     unsafe fn has(put: bool, k: MKey) -> bool { let mut i = 0; while i < COMMITTED.n { if COMMITTED.ops[i].put == put && COMMITTED.ops[i].k == k { return true; } i += 1; } false }
     unsafe fn has_val(k: MKey, v: MVal) -> bool { let mut i = 0; while i < COMMITTED.n { if COMMITTED.ops[i].put && COMMITTED.ops[i].k == k && COMMITTED.ops[i].v == v { return true; } i += 1; } false }
-    unsafe fn count_cell_ops(put: bool) -> usize { let mut c = 0; let mut i = 0; while i < COMMITTED.n { if COMMITTED.ops[i].put == put { if let MKey::Cell(..) = COMMITTED.ops[i].k { c += 1; } } i += 1; } c }
+    unsafe fn count_cell_ops(put: bool) -> usize { let mut c = 0; let mut i = 0; while i < COMMITTED.n { if COMMITTED.ops[i].put == put && COMMITTED.ops[i].k.is_cell() { c += 1; } i += 1; } c }
     fn filter_block_step<const WITH_TYPE: bool, const NTX: usize>() {
         let bn: u64 = kani::any();
         let gen_bn: u64 = kani::any(); let gen_ti: u32 = kani::any();
@@ -154,7 +173,7 @@ mod harness {
             assert!(count_cell_ops(false) == expect_dels, "SPEC index: live cells deleted that the block does not spend");
             assert!(has(true, MKey::BlockNumber(bn)) == (expect_puts + expect_dels > 0) && has(true, MKey::BlockHash(7)) == (expect_puts + expect_dels > 0), "SPEC index: header rows written iff the block touches a registered script");
             // the cell live-row value is the creating transaction hash
-            let mut i = 0; while i < COMMITTED.n { if COMMITTED.ops[i].put { if let MKey::Cell(_, _, n, ti, _) = COMMITTED.ops[i].k { assert!(n == bn && (ti as usize) < ntx && COMMITTED.ops[i].v == MVal::Hash(txs.a[ti as usize].hash.0), "SPEC index: a live-cell row does not point at its creating transaction"); } } i += 1; }
+            let mut i = 0; while i < COMMITTED.n { if COMMITTED.ops[i].put && COMMITTED.ops[i].k.is_cell() { let (n, ti) = (COMMITTED.ops[i].k.number(), COMMITTED.ops[i].k.tx_index()); assert!(n == bn && (ti as usize) < ntx && COMMITTED.ops[i].v == MVal::Hash(txs.a[ti as usize].hash.0), "SPEC index: a live-cell row does not point at its creating transaction"); } i += 1; }
             if NTX == 2 { kani::cover!(expect_dels == 2 && expect_puts >= 1, "two spends and a new cell"); kani::cover!(expect_dels >= 1 && txs.a[1].raw.inputs.a[0].prev.tx_hash == Byte32(20), "a same-block spend"); } else { kani::cover!(expect_dels == 2 && expect_puts >= 1, "a spend of a lock+type cell and a new cell"); kani::cover!(expect_dels == 0 && expect_puts == 0, "untouched block"); }
         }
     }
